@@ -62,6 +62,7 @@ fn main() {
             "dmg" => dmg_engine.get_or_insert_with(dmg::Dmg::new).cmd(&toks[1..]),
             "ri" => ri_engine.get_or_insert_with(ri::Ri::new).cmd(&toks[1..]),
             "vp" => vp_engine.get_or_insert_with(vp::Vp::new).cmd(&toks[1..]),
+            "ar" => ar_cmd(&toks[1..]),
             "wf" => wf_engine.get_or_insert_with(wf::Wf::new).cmd(&toks[1..]),
             "e2" => {
                 if toks.len() > 2 && toks[1] == "newat" {
@@ -99,4 +100,38 @@ fn main() {
         out.flush().unwrap();
     }
     out.flush().unwrap();
+}
+
+/// memtable arena accounting (facade surrealkv::verif::arena): entries are klen:vlen,...
+fn ar_cmd(a: &[&str]) -> String {
+    use surrealkv::verif::arena as fa;
+    fn entries(t: &str) -> Vec<(usize, usize)> {
+        if t == "-" {
+            return vec![];
+        }
+        t.split(',')
+            .map(|x| {
+                let mut p = x.split(':');
+                (p.next().unwrap().parse().unwrap(), p.next().unwrap().parse().unwrap())
+            })
+            .collect()
+    }
+    match a {
+        ["consts"] => format!("empty:{}", fa::empty_size(1 << 20)),
+        ["bound", t] => match fa::upper_bound(&entries(t)) {
+            Ok(b) => format!("bound:{}", b),
+            Err(e) => format!("err:{}", e.replace(' ', "_")),
+        },
+        ["add", cap, reps, t] => match fa::add_on_empty(cap.parse().unwrap(), &entries(t), reps.parse().unwrap()) {
+            Ok((sizes, full)) => format!(
+                "ok:{} full:{} min:{} max:{}",
+                sizes.len(),
+                full,
+                sizes.iter().min().map(|x| x.to_string()).unwrap_or("-".into()),
+                sizes.iter().max().map(|x| x.to_string()).unwrap_or("-".into())
+            ),
+            Err(e) => format!("err:{}", e.replace(' ', "_")),
+        },
+        _ => "bad-command".to_string(),
+    }
 }
